@@ -118,7 +118,11 @@ def op_request(kf):
     q = getattr(kf, "__qualname__", "")
     cv = closure_vars(kf)
     if q.startswith("repeat.<locals>"):
-        return "repeat", lambda oc: "key|repeat|%d|%d|%s" % (cv["repeats"], cv["axis"], nl(oc))
+        # repeat does not normalise a negative axis: `i == axis` then never matches and the key function is the
+        # identity (the plan later fails inside a task: C17's concern).  Model the code that exists: an axis that
+        # matches no coordinate (Ops.onAxis leaves the coordinates unchanged).
+        ax = cv["axis"] if cv["axis"] >= 0 else 99
+        return "repeat", lambda oc: "key|repeat|%d|%d|%s" % (cv["repeats"], ax, nl(oc))
     if q.startswith("stack.<locals>"):
         return "stack", lambda oc: "key|stack|%d|%s" % (cv["axis"], nl(oc))
     if q.startswith("unstack.<locals>"):
